@@ -73,7 +73,7 @@ static void wait_turn() {
         while (g_pos < g_sched.size() && g_finished[g_sched[g_pos] - 1]) { g_pos++; g_desync = true; }   // schedule names a finished thread
         if (g_pos >= g_sched.size()) { g_cv.notify_all(); return; }                                      // schedule exhausted: run freely
         if (g_sched[g_pos] == t_id) { g_pos++; g_cv.notify_all(); return; }
-        if (g_cv.wait_for(lk, std::chrono::seconds(20)) == std::cv_status::timeout) { g_desync = true; g_controlled = false; g_cv.notify_all(); return; }
+        if (g_cv.wait_for(lk, std::chrono::seconds(180)) == std::cv_status::timeout) { g_desync = true; g_controlled = false; g_cv.notify_all(); return; }
     }
 }
 // the library's callbacks: each invocation ends a segment of the calling thread's current call
